@@ -236,6 +236,21 @@ class P:
                 while not self.eat(";"):
                     self.i += 1
                 continue
+            if (self.at("struct") or self.at("impl")) and self.peek()[0] in ("id", "kw"):
+                # an item nested in a function body (a local guard type and its `Drop` impl): skipped here; its functions are
+                # located by text position like every other function (`find_fn` with an anchor)
+                while not self.at("{") and not self.at(";"):
+                    self.i += 1
+                if self.eat(";"):
+                    continue
+                d = 0
+                while True:
+                    if self.at("{"): d += 1
+                    if self.at("}"): d -= 1
+                    self.i += 1
+                    if d == 0:
+                        break
+                continue
             if self.at("#"):      # attribute
                 self.i += 1; self.expect("[")
                 d = 1
